@@ -112,7 +112,7 @@ def draw_params(draw, name, t, opts, depth_left, no_ct, tainted=False):
         return [name, draw(ints(1, 3))]
     if name == 'filter_mod':
         m = draw(ints(2, 4))
-        return [name, m, draw(ints(0, m - 1))]
+        return [name, m, draw(ints(0, m - 1)), draw(st.sampled_from(['bool', 'bool', 'int']))]
     if name == 'filter_gt':
         return [name, draw(ints(-4, 6))]
     if name == 'clip':
@@ -165,7 +165,7 @@ def draw_params(draw, name, t, opts, depth_left, no_ct, tainted=False):
         return [name, active, inactive, closing, draw(st.booleans()), draw(chain(t, opts, depth_left - 1, no_ct=False, tainted=tainted))]
     if name == 'tee':
         join = draw(st.sampled_from(['zip', 'merge', 'combine_latest']))
-        nb = draw(ints(2, opts.branch_max))
+        nb = draw(st.sampled_from([1] + list(range(2, opts.branch_max + 1)) * 3))      # a tee_map of ONE branch is legal too
         branches = [draw(chain(t, opts, depth_left - 1, no_ct=no_ct, in_tee=True, max_len=3, tainted=tainted)) for _ in range(nb)]
         return [name, join, branches]
     return [name]
